@@ -9,6 +9,8 @@ bad = 0
 for seed in seeds:
     for i in range(1, 21):
         pid = 'C%02d' % i
+        if os.environ.get('QUIET_CHECKS') and pid not in os.environ['QUIET_CHECKS'].split(','):
+            continue
         t = time.time()
         p = subprocess.run([os.path.join(VERIF, 'check'), pid, '--tier', tier, '--no-evidence'],
                            cwd=VERIF, env=dict(os.environ, VERIF_SEED=str(seed)),
